@@ -8,10 +8,12 @@ LEAN_TARGETS = ['Props.C09']
 TIE_A = ['meth_project_eq']
 OBLIGATIONS = ['C09.vector_product_split', 'C09.involuted_product_split', 'C09.vector_blade_wedge', 'C09.vector_blade_inner', 'C09.blade_vector_inner',
                'C09.project_plus_remainder', 'C09.one_plus_unit_vector_not_versor',
-               'C09.project_blade_inverse', 'C09.project_formula', 'C09.project_idempotent', 'C09.project_lies_in_blade', 'C09.project_remainder_orthogonal']
-PARTIAL = ['project: the theorems are for a blade given as a geometric product of pairwise orthogonal non-null vectors; that every non-null blade is a multiple of one '
-           '(Gram-Schmidt) is not formalised -- the harness orthogonalises the integer spanning vectors exactly and checks both the premise and the closed form '
-           'on the implementation',
+               'C09.project_blade_inverse', 'C09.project_formula', 'C09.project_idempotent', 'C09.project_lies_in_blade', 'C09.project_remainder_orthogonal',
+               'C09.blade_is_product', 'C09.project_formula_oblique', 'C09.project_idempotent_oblique', 'C09.project_lies_in_blade_oblique',
+               'C09.project_remainder_oblique']
+PARTIAL = ['project: proved for a blade v1^...^vk whose spanning vectors orthogonalise (unitriangular change of basis, GS.Tri) to pairwise orthogonal NON-NULL vectors '
+           '(blade_is_product + project_*_oblique); that such a basis exists for every non-null blade (possibly after reordering the vectors) is not formalised -- '
+           'the harness runs the exact recursion on every case and checks the premise and the closed form on the implementation',
            'factorise / basis reassembly and the grade formulas of join and meet have no Lean theorem: '
            'decided by evaluation on the implementation with integer spanning vectors (conditioning-scaled tolerance)']
 RULE = ("non-degenerate signatures with n<=5 (n<=6 thorough), every k, spanning vectors with small integer coordinates (well conditioned: Gram determinant of the blade "
@@ -39,7 +41,8 @@ def gram_schmidt(sig, C):
     """pairwise orthogonal rational vectors with the same flag of spans as the rows of C (unitriangular change of basis), or None when
     an intermediate vector is null"""
     out = []
-    for row in C:
+    # from the last vector backwards (b_j = v_j - combination of the LATER b's), as in GS.Tri / C09.blade_is_product
+    for row in reversed(C):
         v = [Fraction(int(c)) for c in row]
         for b in out:
             c = form(sig, v, b) / form(sig, b, b)
@@ -47,7 +50,7 @@ def gram_schmidt(sig, C):
         if form(sig, v, v) == 0:
             return None
         out.append(v)
-    return out
+    return list(reversed(out))
 
 
 def wedge_all(vs):
